@@ -414,6 +414,69 @@ func runC03(c *Ctx) {
 		}
 		c.Min("C03.6-copy-coverage", 6)
 	}
+
+	// ---- C03.7 the partial (memory-saving) decode keeps our own read key by the SAME identity
+	// test the state machine applies (PubKeyFromProto + Equals): in isOurIdentity a `false`
+	// answer is produced only by the failing edge of PubKeyFromProto, a missing own key, or by
+	// Equals itself — never by a shortcut on the raw bytes, which would make the state depend
+	// on the encoding of an identity (partial decode ≠ full decode).
+	{
+		rule := "C03.7-partial-decode-identity"
+		fn := p.Func(aclList + ":(*aclRecordBuilder).isOurIdentity")
+		c.Fn(FuncName(fn))
+		pkFromProto := calleeMethod("util/crypto", "PubKeyFromProto")
+		fOurPub := p.Field(aclList + ":aclRecordBuilder.ourPubKey")
+		semFail := map[Edge]bool{}
+		gErr := GErrNil("PubKeyFromProto()==nil", pkFromProto)
+		for e := range gErr.FailEdges(fn) {
+			semFail[e] = true
+		}
+		for e := range GNil("ourPubKey!=nil", fieldLoad(fOurPub), false).FailEdges(fn) {
+			semFail[e] = true
+		}
+		_, errSites := gErr.PassEdges(fn)
+		usesEquals := false
+		for _, ci := range CallsIn(fn) {
+			if o := CalleeObj(ci.Common()); o != nil && o.Name() == "Equals" {
+				usesEquals = true
+			}
+		}
+		r := Reach(fn, ReachOpts{Removed: semFail})
+		bad := ""
+		isFalse := func(v ssa.Value) bool { b, ok := BoolConst(v); return ok && !b }
+		for _, ri := range Returns(fn) {
+			ret := ri.(*ssa.Return)
+			if len(ret.Results) != 1 {
+				continue
+			}
+			switch v := ret.Results[0].(type) {
+			case *ssa.Const:
+				if isFalse(v) && r.Reachable(ret) {
+					bad = "`return false` at " + p.Pos(InstrPos(ret)) + " is reachable without a failed PubKeyFromProto / Equals (witness " + r.Path(p, ret) + ")"
+				}
+			case *ssa.Phi:
+				for i, e := range v.Edges {
+					if !isFalse(e) {
+						continue
+					}
+					pr := v.Block().Preds[i]
+					viaSem := false
+					for si, s := range pr.Succs {
+						if s == v.Block() && semFail[Edge{pr, si}] {
+							viaSem = true
+						}
+					}
+					if !viaSem && len(pr.Instrs) > 0 && r.Reachable(pr.Instrs[0]) {
+						bad = "the answer `false` produced at " + p.Pos(InstrPos(pr.Instrs[len(pr.Instrs)-1])) + " does not come from PubKeyFromProto failing, a missing own key or Equals"
+					}
+				}
+			}
+		}
+		if len(errSites) == 0 || !usesEquals {
+			bad = "isOurIdentity no longer decides by PubKeyFromProto + Equals (the test AclState.applyReadKeyChange applies)"
+		}
+		c.Check(bad == "", rule, FuncName(fn)+"|negative answer is semantic", p.Pos(fn.Pos()), orDefault(bad, "an identity is declared foreign only after PubKeyFromProto failed or Equals said so (same test as the full decode path)"))
+	}
 }
 
 // derivesFromField: v is built (through append / slice / make+copy / phi) from
